@@ -28,11 +28,13 @@ Metrics == [name : Names, tags : TagLists]
 VARIABLES fs, static, m
 vars == <<fs, static, m>>
 Init == fs = <<>> /\ static \in Statics /\ m \in Metrics
-RandomFilter == [mm |-> RandomElement(PatLists), ex |-> RandomElement(PatLists), mt |-> RandomElement(PatLists),
+\* a parameter keeps TLC from evaluating the definition once and caching it (a zero-arity constant-level definition is a lazy value:
+\* every walk used to get the same filter three times)
+RandomFilter(k) == [mm |-> RandomElement(PatLists), ex |-> RandomElement(PatLists), mt |-> RandomElement(PatLists),
                  dt |-> RandomElement(PatLists), dm |-> RandomElement({TRUE, FALSE, FALSE}), dh |-> RandomElement(BOOLEAN)]
 \* exhaustive over the small pool; the full pool (8M filters) is sampled with TLC's RandomElement under -simulate
 Next == /\ Len(fs) < MaxFilters
-        /\ IF PoolKind \in {"small", "pairs"} THEN \E f \in Filters : fs' = Append(fs, f) ELSE fs' = Append(fs, RandomFilter)
+        /\ IF PoolKind \in {"small", "pairs"} THEN \E f \in Filters : fs' = Append(fs, f) ELSE fs' = Append(fs, RandomFilter(Len(fs)))
         /\ UNCHANGED <<static, m>>
 Spec == Init /\ [][Next]_vars
 
